@@ -35,6 +35,7 @@ type runConf struct {
 	SkipTimeoutCommit bool
 	Life              int    // crash: contract storage life cycles in the workload (0 off, 1 light, 2 heavy)
 	Rebirth           bool   // crash: CREATE2 re-creation at the address of a self-destructed contract permitted
+	Gov               bool   // crash + elections: the real Coefficient contract in genesis; blocks change election coefficients
 	Keep              uint64 // prune: retention window K
 	KeepName          string // which member of {0,1,2,5,L-1,L,L+3}
 	PruneAt           []int  // prune: heights at which ClearHistoricalData's body runs
@@ -44,7 +45,7 @@ func init() {
 	log.Root().SetHandler(log.DiscardHandler())
 	kernel.Register(&kernel.Rig{
 		Property: "C13", Name: "R-crash", Level: "fault_enumeration",
-		Rule:        "crash runs (2 of 3): one seeded configuration (storage mode kv/trie, 3-4 blocks quick / 3-6 thorough, per block 0-4 transactions from the shared generator txgen: account transfers, contract creation/storage calls and - in 2 of 3 runs - confidential transactions account->hidden, hidden->hidden, hidden->account so that blocks carry UTXO outputs and key images; in 5 of 6 crash runs contract storage life cycles (txgen.LifeGen, 1-3 transactions per block: contracts whose constructor writes slots are created in the first blocks, later blocks overwrite and CLEAR slots, read / re-write slots cleared earlier, send coin and tokens in, SELFDESTRUCT contracts holding storage, CREATE2 children and - when the chain is long enough - re-create a destroyed child at the same address), so that the commit a crash interrupts DELETES keys of the flat state and its undo log must hold their pre-images; optional elections (coefficient record with VotePeriod 2-3 and 2-5 candidate records in genesis: the validator set changes); optional duplicate-vote evidence; part size; commit timeout). A single validator runs the REAL consensus.finalizeCommit. For EVERY block the number W of database write boundaries of the commit is measured (App.CommitBlock: state commit incl. kv undo-WAL, SaveBlock's three writer goroutines released in a tape-chosen order, batch, height descriptor, SaveUtxo batches and sequence records, mempool update; WAL end-height marker; ApplyBlock: evidence store, status and per-height validator/parameter records) and the commit is re-executed W+1 times from the pre-commit durable state, the durable image frozen after boundary k = 0..W together with the WAL / validator-key / kvState.wal files as they are at that instant; a fresh node is started over the frozen image (restart must not panic or refuse), the oracle is evaluated, the node is driven to commit the next height, the oracle is evaluated again. Long-lived trials: for every height h >= 2 a tape-chosen sample of 5 (quick) / 10 (thorough) boundaries - always including the last write of the state commit - is crashed again in an incarnation that started 1-3 heights earlier and committed those heights ITSELF before the commit of h (same process: same open kvState.wal handle, consensus WAL, caches; its own blocks of those heights are the reference for hash/status/root, the main line for everything else). A node started over the completely committed state of h-1 that dies with CONSENSUS FAILURE while committing h is a violation of its own (key .../clean-restart). Oracle: block store height = consensus status height = consensus state machine height - 1; every block, seen commit, block commit, tx-index entry and receipt of heights <= H readable and equal to what was committed before the crash (heights < h from the main line, height h from the crashed execution itself run to completion); the block of height h committed before the crash present iff the commit had completed, never a different block; saved status of the last heights byte-equal to the uncrashed execution's; validator/parameter records loadable; world state on disk and the application's view equal to the reference ledger (txgen: plain maps advanced from receipts) of height H, trie root equal; code, nonce, coin and token balances and every storage slot ever touched of every life-cycle contract, read from the state stored for H, equal to what the never-crashed execution holds for that height and to the rig's storage model (plain maps advanced from calldata and receipt statuses; what the uncrashed chain itself disagrees with is left out); output index (count, every output, per-block initial sequence record) and spent-key-image set exactly those of blocks <= H. A witness node runs the same transactions from genesis without any restart and must satisfy the same oracle (key .../no-crash). prune runs (1 of 3): chain of L <= 16 (quick) / 40 (thorough) blocks, elections in 3 of 4 runs (validator-change heights follow from the tape), retention K from {0,1,2,5,L-1,L,L+3}; BlockStore.DeleteHistoricalData(K) then ConsensusState.DeleteHistoricalData(K) as node.ClearHistoricalData calls them, at 1-2 tape-chosen heights (each call on its own goroutine under a read budget: a runaway call is cut off and judged by the data only); the chain continues two heights, the node restarts, the chain continues. Oracle: LoadBlock, LoadBlockMeta, LoadSeenCommit, LoadBlockCommit, LoadValidators, LoadConsensusParams of the last K heights return what they returned when the height was new. non-trivial = at least 30 crash points evaluated (crash) / at least one non-empty retained window evaluated (prune); distinct = hash of (mode, storage mode, elections, per-height W, tx counts and validator-set sizes / K, L, prune heights, validator-change heights)",
+		Rule:        "crash runs (2 of 3): one seeded configuration (storage mode kv/trie, 3-4 blocks quick / 3-6 thorough, per block 0-4 transactions from the shared generator txgen: account transfers, contract creation/storage calls and - in 2 of 3 runs - confidential transactions account->hidden, hidden->hidden, hidden->account so that blocks carry UTXO outputs and key images; in 2 of 3 election runs the genesis holds the REAL Coefficient wasm contract and blocks carry governance transactions (vote period 1-4, vote rate electing fewer candidates, ranking rates, maximal score) so that the interrupted commit changes what the next validators are computed from; in 5 of 6 crash runs contract storage life cycles (txgen.LifeGen, 1-3 transactions per block: contracts whose constructor writes slots are created in the first blocks, later blocks overwrite and CLEAR slots, read / re-write slots cleared earlier, send coin and tokens in, SELFDESTRUCT contracts holding storage, CREATE2 children and - when the chain is long enough - re-create a destroyed child at the same address), so that the commit a crash interrupts DELETES keys of the flat state and its undo log must hold their pre-images; optional elections (coefficient record with VotePeriod 2-3 and 2-5 candidate records in genesis: the validator set changes); optional duplicate-vote evidence; part size; commit timeout). A single validator runs the REAL consensus.finalizeCommit. For EVERY block the number W of database write boundaries of the commit is measured (App.CommitBlock: state commit incl. kv undo-WAL, SaveBlock's three writer goroutines released in a tape-chosen order, batch, height descriptor, SaveUtxo batches and sequence records, mempool update; WAL end-height marker; ApplyBlock: evidence store, status and per-height validator/parameter records) and the commit is re-executed W+1 times from the pre-commit durable state, the durable image frozen after boundary k = 0..W together with the WAL / validator-key / kvState.wal files as they are at that instant; a fresh node is started over the frozen image (restart must not panic or refuse), the oracle is evaluated, the node is driven to commit the next height, the oracle is evaluated again. Long-lived trials: for every height h >= 2 a tape-chosen sample of 5 (quick) / 10 (thorough) boundaries - always including the last write of the state commit - is crashed again in an incarnation that started 1-3 heights earlier and committed those heights ITSELF before the commit of h (same process: same open kvState.wal handle, consensus WAL, caches; its own blocks of those heights are the reference for hash/status/root, the main line for everything else). A node started over the completely committed state of h-1 that dies with CONSENSUS FAILURE while committing h is a violation of its own (key .../clean-restart). Oracle: block store height = consensus status height = consensus state machine height - 1; every block, seen commit, block commit, tx-index entry and receipt of heights <= H readable and equal to what was committed before the crash (heights < h from the main line, height h from the crashed execution itself run to completion); the block of height h committed before the crash present iff the commit had completed, never a different block; saved status of the last heights byte-equal to the uncrashed execution's; validator/parameter records loadable; world state on disk and the application's view equal to the reference ledger (txgen: plain maps advanced from receipts) of height H, trie root equal; code, nonce, coin and token balances and every storage slot ever touched of every life-cycle contract, read from the state stored for H, equal to what the never-crashed execution holds for that height and to the rig's storage model (plain maps advanced from calldata and receipt statuses; what the uncrashed chain itself disagrees with is left out); output index (count, every output, per-block initial sequence record) and spent-key-image set exactly those of blocks <= H. A witness node runs the same transactions from genesis without any restart and must satisfy the same oracle (key .../no-crash). prune runs (1 of 3): chain of L <= 16 (quick) / 40 (thorough) blocks, elections in 3 of 4 runs (validator-change heights follow from the tape), retention K from {0,1,2,5,L-1,L,L+3}; BlockStore.DeleteHistoricalData(K) then ConsensusState.DeleteHistoricalData(K) as node.ClearHistoricalData calls them, at 1-2 tape-chosen heights (each call on its own goroutine under a read budget: a runaway call is cut off and judged by the data only); the chain continues two heights, the node restarts, the chain continues. Oracle: LoadBlock, LoadBlockMeta, LoadSeenCommit, LoadBlockCommit, LoadValidators, LoadConsensusParams of the last K heights return what they returned when the height was new. non-trivial = at least 30 crash points evaluated (crash) / at least one non-empty retained window evaluated (prune); distinct = hash of (mode, storage mode, elections, per-height W, tx counts and validator-set sizes / K, L, prune heights, validator-change heights)",
 		Real:        []string{"consensus.ConsensusState incl. receiveRoutine, finalizeCommit, WAL catch-up replay (single validator)", "consensus WAL (real baseWAL on files)", "types.FilePV on a real file", "app.LinkApplication (CreateBlock, PreRunBlock, CheckBlock, CommitBlock, election path)", "state.StateDB commit in kv mode (real kvState.wal file) and trie mode", "blockchain.BlockStore.SaveBlock with its three writer goroutines", "libs/txmgr tx index", "utxo.UtxoStore.SaveUtxo", "mempool (AddTx, Reap, Update)", "consensus.BlockExecutor.ApplyBlock + SaveStatus", "evidence pool/store", "p2p.ConManager (socket-free through the ListenerBindFunc/DefaultNewTableFunc seams) for the election path", "BlockStore.DeleteHistoricalData", "ConsensusState.DeleteHistoricalData", "linkchain's own confidential-transaction builders/verifiers (types/tx_utxo.go)"},
 		Stub:        []string{"node assembly: simnode.OpenChain mirrors node.NewNode (store opening order, LoadStatus, NewLinkApplication, 'status one block behind the store => ApplyBlock' rebuild, mempool, consensus construction); the real NewNode (key store, switch, RPC) is not run", "timeout ticker (simulator-controlled VerifTicker, same replace-if-later rule)", "storage engine (SimDB: process-crash model, a completed write survives, nothing later does)", "p2p switch (no peers)", "libxcrypto (pure-Go model)", "balance-record store closed (SaveBalanceRecord=false, the default)"},
 		Assumptions: []string{"Go 1.26.8 testing/synctest virtual clock", "process-crash model at database write boundaries; files (WAL, priv_validator.json, kvState.wal) are copied at the freeze instant; torn file writes and crash points between two file operations that are not separated by a DB write are not injected", "single validator holding > 2/3 of the power (1-3 elected candidates with power 45/24/16 each are absent: their proposer turns time out)", "a second crash during recovery is not injected", "the writes of the state commit are issued in Go map iteration order: which account/storage/code write is the k-th differs between executions and between a run and its replay: violation keys of these crash points carry no ordinal (C13/crash/state/write/<kind>), the ordinal is in the message", "candidate deposits are absent from genesis (GetCandidatesDeposit reports 0)"},
@@ -98,7 +99,8 @@ func drawConf(c *kernel.Ctx) runConf {
 		// contract storage life cycles: their own stream (the "config" stream keeps its meaning)
 		lt := c.Tape.Fork("life-config")
 		cf.Life = lt.Pick(1, 2, 3)
-		cf.Rebirth = cf.Life > 0 && lt.Bool(1, 3)
+		cf.Rebirth = cf.Life > 0 && lt.Bool(2, 3)
+		cf.Gov = cf.Elections && c.Tape.Fork("gov-config").Bool(2, 3)
 		if cf.Life == 2 && lt.Bool(1, 2) {
 			cf.Blocks++
 		}
@@ -189,6 +191,10 @@ func (w *world) genesis() (*durable, error) {
 	w.life.NoTokens = conf.Utxo
 	gen.Alloc = w.txg.Alloc()
 	w.txg.KnowGenesis(config.ContractValidatorsAddr, common.EmptyAddress, w.key.CoinBase)
+	if conf.Gov {
+		// the real Coefficient contract; the first generator account governs
+		gen.CoefficientContract, gen.Governor = true, w.txg.Accts[0].Addr
+	}
 	if conf.Elections {
 		gen.VotePeriod = conf.VotePeriod
 		for i := 0; i < conf.NCand; i++ {
